@@ -136,8 +136,8 @@ def run(ctx, rep):
     rep.floor("N7", "name wiring obligations", n, 20)
     rep.rule("N7", "A9: package / item / member names and qualified-name segments are the IDENT texts, re-joined with '.' irrespective of spacing")
     # N5
-    c05.resolve_type_rules(ctx, rep, "C17", builtin_precedence=False)
-    c05.builtin_tables(ctx, rep, "C17")
+    # every type reference, at any depth, reaches the resolver (walker coverage) and is resolved per AIDL scoping: C05 rules A-E
+    c05.resolution_rules(ctx, rep, "C17")
     import common_g
     rep.floor("IN", "grammar actions feeding this rule", common_g.emit_inputs(ctx, rep, "C17"), 5)
     import pipeline
